@@ -274,6 +274,12 @@ def build_evaluator(family, c, t, menu, naming='descriptive', backend='default')
     # the documented eager backend (jit disabled, clients one after the other)
     with fedjax.for_each_client_backend('debug'):
       return fmodels.ModelEvaluator(build_model(family, c, t, menu, naming))
+  if backend == 'pmap':
+    # the documented parallel backend over 3 of the virtual CPU devices: the two
+    # clients of a case leave one device of the block to a padding client
+    from fedjax.core import for_each_client as fec
+    with fedjax.for_each_client_backend(fec.ForEachClientPmapBackend(jax.local_devices()[:3])):
+      return fmodels.ModelEvaluator(build_model(family, c, t, menu, naming))
   return fmodels.ModelEvaluator(build_model(family, c, t, menu, naming))
 
 
@@ -603,19 +609,26 @@ def run_model_paths(case):
         model, None, dataset.padded_batch(
             batch_size=pb['batch_size'], num_batch_size_buckets=pb['buckets']))
   if 'evaluator' in case['via']:
-    evaluator = build_evaluator(fam, c, t, menu, naming,
-                                case.get('evaluator_backend', 'default'))
+    eb = case.get('evaluator_backend', 'default')
+    if eb == 'pmap' and len({len(b) for b in case['batches']}) > 1:
+      eb = 'default'   # pmap stacks the j-th batches of a block: one batch shape
+    evaluator = build_evaluator(fam, c, t, menu, naming, eb)
     rev = list(reversed(user_batches))
+    # the mock model ignores its params; pmap needs an array to map over
+    params = jnp.zeros((1,), jnp.float32) if eb == 'pmap' else None
     if case.get('per_client_params'):
       out = list(evaluator.evaluate_per_client_params(
-          [(b'fwd', user_batches, None), (b'rev', rev, None)]))
+          [(b'fwd', user_batches, params), (b'rev', rev, params)]))
     else:
       out = list(evaluator.evaluate_global_params(
-          None, [(b'fwd', user_batches), (b'rev', rev)]))
-    require([cid for cid, _ in out] == [b'fwd', b'rev'], 'evaluator:client_ids',
-            f'{[cid for cid, _ in out]}')
-    results['evaluator[fwd]'] = out[0][1]
-    results['evaluator[rev]'] = out[1][1]
+          params, [(b'fwd', user_batches), (b'rev', rev)]))
+    # jit and debug keep the input order; pmap may reorder clients
+    by_id = dict(out)
+    require(len(out) == 2 and sorted(by_id) == [b'fwd', b'rev'] and
+            (eb == 'pmap' or [cid for cid, _ in out] == [b'fwd', b'rev']),
+            'evaluator:client_ids', f'{[cid for cid, _ in out]}')
+    results['evaluator[fwd]'] = by_id[b'fwd']
+    results['evaluator[rev]'] = by_id[b'rev']
 
   # the caller's batches (dicts and arrays) are what they were: evaluating them
   # again, now or later, sees the same keys (mask included) and the same bytes
@@ -830,8 +843,13 @@ def model_case_strategy(draw, tier, force_empty=False):
                                       ['evaluate_model', 'evaluator']]))
   case['per_client_params'] = draw(st.booleans())
   case['as_generator'] = draw(st.booleans())
-  if 'evaluator' in case['via'] and draw(st.integers(0, 3)) == 0:
-    case['evaluator_backend'] = 'debug'
+  if 'evaluator' in case['via']:
+    pick = draw(st.integers(0, 5))
+    if pick == 0:
+      case['evaluator_backend'] = 'debug'
+    elif pick in (1, 2):
+      # (takes effect when all batches of the case have one padded size)
+      case['evaluator_backend'] = 'pmap'
   if draw(st.integers(0, 2)) == 0:
     # position-only metric names, and another model with the same names but
     # other metrics is evaluated on the same batches first
@@ -906,6 +924,8 @@ def eval_labels(case):
       ls.append('same_names_other_metrics_model_evaluated_first')
     if case.get('evaluator_backend') == 'debug':
       ls.append('evaluator_on_debug_backend')
+    if case.get('evaluator_backend') == 'pmap' and len({len(b) for b in case['batches']}) <= 1:
+      ls.append('evaluator_on_pmap_backend')
     if case.get('padded_batch') and case['examples']:
       ls.append('via:ClientDataset.padded_batch')
     if case['family'] == 'seq':
